@@ -302,6 +302,7 @@ def mutate_value(
         return old_value.__wrapped__ if isinstance(old_value, Proxy) else old_value
 
     mutate_safe = inplace
+    thaw = False  # Whether `value` is ours to mutate even if frozen (a copy or a new instance made here).
     used_attrs = set()
 
     # If `new_value` is not `MISSING`, use it; otherwise use `old_value` if not
@@ -342,7 +343,7 @@ def mutate_value(
     # constructor, create a new instance with existing attrs. Any attrs not
     # found in the constructor will be assigned later.
     elif value is MISSING and constructor is not None:
-        mutate_safe = True
+        mutate_safe = thaw = True
         while hasattr(constructor, "__origin__"):
             constructor = constructor.__origin__
         if attrs:
@@ -359,7 +360,6 @@ def mutate_value(
             value = constructor()
 
     # If there are any left-over attributes to apply to our value, we do so here.
-    thaw = False  # Whether `value` is a copy of a frozen instance made here.
     if value is not None and value is not MISSING and attrs:
         if not mutate_safe:
             value = protect_via_deepcopy(value, for_mutation=True)
